@@ -182,9 +182,23 @@ def _run_once(spec, random_state=None):
             async def run_prev(job):
                 return objective(dict(job.parameters), nobj, 0, 0.0)
 
-            prev = RandomSearch(build_problem(spec["space"]), Evaluator.create(run_prev, method="serial", method_kwargs={"num_workers": 1}),
-                                random_state=4242, log_dir=os.path.join(d, "prev_%d" % k))
-            dfp = prev.search(max_evals=int(spec["warm"]))
+            if int(spec["warm"]) > 60:
+                # a long history (hundreds of evaluations): the results table of the earlier search is written directly
+                import pandas as pd
+
+                sp = build_problem(spec["space"]).space
+                sp.seed(4242)
+                rows = []
+                for i, cfgp in enumerate(sp.sample_configuration(int(spec["warm"]))):
+                    cfgp = {kk: (vv.item() if hasattr(vv, "item") else vv) for kk, vv in dict(cfgp).items()}
+                    rows.append(dict({"p:" + kk: vv for kk, vv in cfgp.items()}, objective=objective(cfgp, 1, 0, 0.0), job_id=i))
+                dfp = pd.DataFrame(rows)
+                os.makedirs(os.path.join(d, "prev_%d" % k), exist_ok=True)
+                dfp.to_csv(os.path.join(d, "prev_%d" % k, "results.csv"), index=False)
+            else:
+                prev = RandomSearch(build_problem(spec["space"]), Evaluator.create(run_prev, method="serial", method_kwargs={"num_workers": 1}),
+                                    random_state=4242, log_dir=os.path.join(d, "prev_%d" % k))
+                dfp = prev.search(max_evals=int(spec["warm"]))
             how = spec.get("warm_how", "fit_surrogate")
             if how == "fit_surrogate":
                 search.fit_surrogate(dfp)
@@ -268,6 +282,11 @@ def apply_ambient(amb):
     if amb.get("log"):
         # an application that configured logging: root logger at DEBUG with a handler (written to the null device)
         logging.basicConfig(level=getattr(logging, amb["log"]), stream=open(os.devnull, "w"), force=True)
+    if amb.get("affinity") and hasattr(os, "sched_setaffinity"):
+        # the CPU allowance of the process (taskset / cgroup / another machine): n_jobs=-1, effective_n_jobs, cpu_count follow it
+        avail = sorted(os.sched_getaffinity(0))
+        k = int(amb.get("affinity_shift", 0))
+        os.sched_setaffinity(0, {avail[(k + i) % len(avail)] for i in range(min(int(amb["affinity"]), len(avail)))})
     if amb.get("warnings"):
         warnings.resetwarnings()
         warnings.simplefilter(amb["warnings"])
